@@ -36,6 +36,19 @@ func init() {
 		nd + "Implies":    func(fr *frame, a []value) value { return fr.p.orv(fr.p.notv(a[0]), a[1]) },
 		nd + "Not":        func(fr *frame, a []value) value { return fr.p.notv(a[0]) },
 		nd + "Reach":      extNdReach,
+		nd + "Feasible": func(fr *frame, a []value) value {
+			switch c := a[0].(type) {
+			case bool:
+				return c
+			case *Term:
+				r, _ := fr.p.feasible(c)
+				if r == Unknown {
+					fr.p.w.res.inconclusive("solver unknown in nd.Feasible")
+				}
+				return r != Unsat
+			}
+			return false
+		},
 		nd + "Log":        extNdLog,
 		nd + "Events":     func(fr *frame, a []value) value { return len(fr.p.events) },
 		nd + "Yield":      func(fr *frame, a []value) value { fr.schedPoint("yield"); return nil },
